@@ -328,17 +328,43 @@ func TestProp(t *testing.T) {
 	})
 	// Grid: every etype x every length 0..130 x every usage, both directions, fresh key per cell.
 	// Quick takes a seed-dependent 1/8 slice of the usages per (etype,len); thorough takes all.
-	r.Rule("grid: etype x every length 0..130 x usage set x both directions, key per cell from a seeded stream (quick: 1/6 of the usages per cell, thorough: all)")
+	r.Rule("grid: etype x every length 0..130 (thorough: 0..300 and 511..513, 1023..1025, 4095..4097, 65535..65537) x usage set x both directions, key per cell from a seeded stream (quick: 1/6 of the usages per cell, thorough: all)")
 	type cell struct {
 		et int32
 		n  int
 	}
 	cells := []cell{}
+	gridLens := []int{}
+	for n := 0; n <= r.N(130, 300); n++ {
+		gridLens = append(gridLens, n)
+	}
+	if r.Thorough() {
+		gridLens = append(gridLens, 511, 512, 513, 1023, 1024, 1025, 4095, 4096, 4097, 65535, 65536, 65537)
+	}
 	for _, et := range ref.ETypes {
-		for n := 0; n <= 130; n++ {
+		for _, n := range gridLens {
 			cells = append(cells, cell{et, n})
 		}
 	}
+	// every key usage number for every etype: the n-fold of the derivation constant runs through every carry pattern of
+	// its arithmetic within a few thousand consecutive numbers
+	maxU := r.N(8191, 65535)
+	r.Rule(fmt.Sprintf("usage sweep: for every etype EVERY key usage 1..%d, library encrypts / reference decrypts and reference encrypts / library decrypts (fixed key and 21-octet plaintext per etype)", maxU))
+	evid.Parallel(len(ref.ETypes)*16, 16, func(i int) {
+		et := ref.ETypes[i/16]
+		lbl := fmt.Sprintf("c05/usages/%d", et)
+		key := hex.EncodeToString(ref.RandomKey(et, kgen.DetBytes(r.Seed(), lbl+"/k", 32)))
+		plain := hex.EncodeToString(kgen.DetBytes(r.Seed(), lbl+"/p", 21))
+		conf := hex.EncodeToString(kgen.DetBytes(r.Seed(), lbl+"/c", ref.ConfounderLen(et)))
+		for u := 1 + i%16; u <= maxU; u += 16 {
+			for _, dir := range []string{"lib2ref", "ref2lib"} {
+				c := Case{EType: et, Usage: uint32(u), Dir: dir, Key: key, Plain: plain, Conf: conf}
+				count(r, c)
+				r.Violation("grid", c, Eval(c))
+			}
+		}
+	})
+	r.Exhaustive(fmt.Sprintf("etype x every key usage 1..%d x direction", maxU))
 	evid.Parallel(len(cells), 16, func(i int) {
 		ce := cells[i]
 		for ui, u := range kgen.Usages {
@@ -383,6 +409,6 @@ func TestProp(t *testing.T) {
 		r.Label("fresh-faulty-source:skipped (toolchain aborts on a failing random source)")
 	}
 	if r.Thorough() {
-		r.Exhaustive("etype x length 0..130 x usage set x direction (keys/contents sampled)")
+		r.Exhaustive("etype x length 0..300 x usage set x direction (keys/contents sampled)")
 	}
 }
